@@ -61,6 +61,39 @@ def sample_new_batch(r: random.Random, big_ok: bool = True) -> tuple[dict, list[
     return p, recs
 
 
+def boundary_batches(thorough: bool = False) -> list[tuple[dict, list[dict]]]:
+    """Deterministic batches that put every varint of the record format on both sides of each of its
+    width boundaries: zig-zag lengths of key / value / header key / header value (63|64, 8191|8192|8193,
+    and 2^20 in the thorough tier), the header count, offset deltas and timestamp deltas of either sign
+    (1|2, 2|3, 3|4, 4|5 bytes; timestamp deltas also at the 5|6 byte boundary of a varlong)."""
+    p = {"producer_id": aint(1), "producer_epoch": aint(0), "ple": aint(0), "base_seq": aint(0), "attributes": aint(0)}
+
+    def rec(off=0, ts=10**12, key=None, value=None, headers=()):
+        return {"attrs": aint(0), "ts": aint(ts), "offset": aint(off), "key": _ab(key), "value": _ab(value),
+                "headers": [[_ab(k), _ab(v)] for k, v in headers]}
+
+    def blob(n):
+        return bytes([n % 251]) + b"\x61" * (n - 1) if n else b""
+    out = []
+    lengths = [63, 64, 65, 8191, 8192, 8193] + ([1048575, 1048576] if thorough else [])
+    for n in lengths:
+        out.append((p, [rec(key=blob(n))]))
+        out.append((p, [rec(value=blob(n))]))
+        out.append((p, [rec(key=b"k", headers=[(blob(n), b"v")])]))
+        out.append((p, [rec(key=b"k", headers=[(b"h", blob(n))])]))
+    for n in (63, 64, 65):
+        out.append((p, [rec(value=b"v", headers=[(b"h", None)] * n)]))
+    deltas = []
+    for k in (6, 13, 20, 27):
+        deltas += [2**k - 1, 2**k, -(2**k), -(2**k) - 1]
+    for d in deltas + [2**31 - 1, -(2**31)]:
+        out.append((p, [rec(off=2**40), rec(off=2**40 + d)]))
+    for d in deltas + [2**34 - 1, 2**34, -(2**34), -(2**34) - 1, 2**31 - 1, 2**31, -(2**31) - 1]:
+        out.append((p, [rec(ts=10**12), rec(ts=10**12 + d)]))
+        out.append((p, [rec(ts=10**12 + d), rec(ts=10**12)]))
+    return out
+
+
 def build_new_batch(p: dict, recs: list[dict]):
     from kio.records.schema import NewRecordBatch, Record, RecordHeader
     u = project.unaint
@@ -212,9 +245,12 @@ def failing_write(r: random.Random, p: dict, recs: list[dict]) -> str:
 def gen_new_shard(args) -> dict:
     path, lo, hi, seed = args
     cases = []
+    bnd = boundary_batches(thorough=hi - lo > 60)
     for i in range(lo, hi):
         r = random.Random(seed * 7919 + i)
         p, recs = sample_new_batch(r, big_ok=(i % 40 == 0))
+        if i % 2 == 0 and i // 2 < len(bnd):
+            p, recs = bnd[i // 2]
         if i % 3 == 1:
             failing_write(r, *sample_new_batch(random.Random(seed + i), big_ok=False))
         cases.append(new_case(f"n{i}", p, recs))
@@ -245,10 +281,15 @@ def given_header(r: random.Random, p: dict, recs: list[dict]) -> tuple[dict, lis
 def gen_enc_inputs(args) -> dict:
     path, lo, hi, seed = args
     cases = []
+    bnd = boundary_batches()
+    bnd = [bnd[(j * 37) % len(bnd)] for j in range(len(bnd))]      # a spread of kinds first (37 is coprime to the count)
+    bnd = [b for b in bnd if sum(len(project.unblob(x[k])) for x in b[1] for k in ("key", "value") if "null" not in x[k]) < 200]
     for i in range(lo, hi):
         r = random.Random(seed * 104729 + i)
         p, recs = sample_new_batch(r, big_ok=False)
         given = i % 3 == 1
+        if i % 3 == 0 and i // 3 < len(bnd):
+            p, recs = bnd[i // 3]
         if given:
             p, recs = given_header(r, p, recs)
         cases.append({"id": f"e{i}", "mode": "enc", "given": given, "p": p, "recs": recs})
@@ -277,3 +318,124 @@ def gen_read_shard(args) -> dict:
         cases.append(rc)
     write_cases(out_path, cases)
     return {"path": out_path, "cases": len(cases), "faults": nf}
+
+
+# ------------------------------------------------------------------ two threads, every preemption point
+def _schedules(points: int, rng: random.Random, sweep: int, rnd: int) -> list[list[int]]:
+    """[k, inf]: thread 0 is preempted after k switch points, thread 1 runs its whole call, thread 0
+    resumes; plus random multi-switch run-length lists."""
+    ks = list(range(1, points + 1)) if points <= sweep else sorted({1 + (j * points) // sweep for j in range(sweep)})
+    out = [[k, 10**9] for k in ks]
+    for _ in range(rnd):
+        out.append([rng.randint(1, max(2, points // 3)) for _ in range(rng.choice([2, 3, 5, 8]))])
+    return out
+
+
+def _run_pairs(bodies_for, rng: random.Random, sweep: int, rnd: int) -> tuple[list[dict], int, int]:
+    from . import sched
+    probe = sched.run_bodies(bodies_for(), [10**9])
+    cases, seen, nruns, switches = [], set(), 0, 0
+    for j, runs in enumerate([[10**9]] + _schedules(probe["points"], rng, sweep, rnd)):
+        res = probe if j == 0 else sched.run_bodies(bodies_for(), runs)
+        nruns += 1
+        switches += res["switches"]
+        if res["abandoned"]:
+            continue
+        for c in res["cases"]:
+            key = json.dumps({k: v for k, v in c.items() if k != "id"}, sort_keys=True)
+            if key in seen:
+                continue
+            seen.add(key)
+            c["id"] = c["id"] + f"s{j}"
+            c["sched"] = runs if len(runs) < 12 else runs[:12]
+            cases.append(c)
+    return cases, nruns, switches
+
+
+def concurrent_new_shard(args) -> dict:
+    """Pairs of write_batch calls on private sinks in two threads, preempted at every switch point
+    (line events in kio's files and the sink's write calls).  Outputs that are identical to one already
+    seen for the same input are validated once."""
+    from . import sched
+    from kio.records.writers import write_batch
+    path, lo, hi, seed, sweep, rnd = args
+    cases, nruns, switches = [], 0, 0
+    for i in range(lo, hi):
+        r = random.Random(seed * 65537 + i)
+        inputs = [sample_new_batch(r, big_ok=False) for _ in range(2)]
+        if i % 2 == 0:      # make sure there are records with several headers to be preempted in
+            for p_, recs_ in inputs:
+                recs_[0]["headers"] = [[_ab(b"h%d" % j), _ab(bytes([j]) * (j + 1))] for j in range(3)]
+
+        def bodies_for(inputs=inputs, i=i):
+            def mk(t):
+                p_, recs_ = inputs[t]
+
+                def body(hook, out):
+                    sink = sched.SchedSink(hook)
+                    exc = None
+                    try:
+                        write_batch(sink, build_new_batch(p_, recs_))
+                    except BaseException as e:  # noqa: BLE001
+                        exc = e
+                    out.append({"id": f"x{i}t{t}", "mode": "new", "given": False, "p": p_, "recs": recs_,
+                                "wev": RecSink.events(sink), "wout": outcome(exc),
+                                "werr": "" if exc is None else repr(exc)[:200]})
+                return body
+            return [mk(0), mk(1)]
+        cs, n, sw = _run_pairs(bodies_for, r, sweep, rnd)
+        cases += cs
+        nruns += n
+        switches += sw
+    write_cases(path, cases)
+    return {"path": path, "cases": len(cases), "runs": nruns, "switches": switches}
+
+
+def concurrent_read_shard(args) -> dict:
+    """Pairs of read_batch (+ write back) calls on private streams in two threads, as above."""
+    from . import sched
+    from kio.records.readers import read_batch
+    from kio.records.writers import write_batch
+    in_path, encoded, out_path, seed, sweep, rnd = args
+    with open(in_path) as f:
+        data = json.load(f)
+    enc = {e["id"]: e for e in encoded}
+    items = [(c, project.unbabs(enc[c["id"]]["b"])) for c in data["cases"]]
+    cases, nruns, switches = [], 0, 0
+    for i in range(0, len(items) - 1, 2):
+        r = random.Random(seed * 92821 + i)
+        pair = items[i:i + 2]
+
+        def bodies_for(pair=pair, i=i):
+            def mk(t):
+                c, raw = pair[t]
+
+                def body(hook, out):
+                    src = sched.SchedSource(raw + b"\x00\x01\x02", hook)
+                    batch, exc = None, None
+                    try:
+                        batch = read_batch(src)
+                    except BaseException as e:  # noqa: BLE001
+                        exc = e
+                    case = {"id": c["id"].replace("e", "y") + f"t{t}", "mode": "read", "src": "spec", "p": c["p"],
+                            "recs": c["recs"], "given": c["given"], "input": babs(raw), "rout": outcome(exc),
+                            "rerr": "" if exc is None else repr(exc)[:200], "rbatch": EMPTY_BATCH,
+                            "consumed": RecSource.pos(src), "wev": [], "wout": "skipped", "faults": []}
+                    if exc is None:
+                        case["rbatch"] = project_batch(batch)
+                        sink = sched.SchedSink(hook)
+                        wexc = None
+                        try:
+                            write_batch(sink, batch)
+                        except BaseException as e:  # noqa: BLE001
+                            wexc = e
+                        case["wev"], case["wout"] = RecSink.events(sink), outcome(wexc)
+                    out.append(case)
+                return body
+            return [mk(0), mk(1)]
+        cs, n, sw = _run_pairs(bodies_for, r, sweep, rnd)
+        cases += cs
+        nruns += n
+        switches += sw
+    write_cases(out_path, cases)
+    return {"path": out_path, "cases": len(cases), "faults": 0, "runs": nruns, "switches": switches}
